@@ -230,6 +230,26 @@ C02_Modifier(act, args, self, o) ==
           (IF args.q.form = "str" THEN (HasSurrogate(args.q.s) \/ IsSuffixOf(SkelIn("query", FALSE, args.q.s), SkelOut("query", Query5(o))))
            ELSE TRUE)
     [] OTHER -> TRUE
+\* ... and what a modifier does NOT address keeps its meaning (the quantifier of C02 runs over "constructor, build, modifiers
+\* and join": the decoded value a component got from the text that was supplied for it must survive every later modifier
+\* that is about another component).  S: receiver, O: result; both hold canonical text, so escapes are read as escapes.
+C02_UserKeepers == {"with_scheme", "with_password", "with_host", "with_port", "with_fragment", "with_query", "extend_query", "update_query",
+                    "without_query_params", "with_path", "with_name", "with_suffix", "truediv", "joinpath", "parent"}
+C02_PathKeepers == {"with_scheme", "with_user", "with_password", "with_host", "with_port", "with_fragment", "with_query", "extend_query",
+                    "update_query", "without_query_params"}
+C02_QueryKeepers == {"with_scheme", "with_user", "with_password", "with_host", "with_port", "with_fragment"}
+C02_FragKeepers == (C02_QueryKeepers \ {"with_fragment"}) \cup {"with_query", "extend_query", "update_query", "without_query_params"}
+KeptOpt(k, S, O, f) ==
+  (Ok(S[f]) /\ Ok(O[f])) =>
+     (IF V(S[f]) = None THEN V(O[f]) = None ELSE V(O[f]) # None /\ Meaning(k, TRUE, V(S[f])[1], V(O[f])[1]))
+C02_Kept(act, args, S, O) ==
+  /\ (act \in C02_UserKeepers /\ Netloc5(S) # <<>>) => KeptOpt("user", S, O, "raw_user")
+  /\ ((act \in (C02_UserKeepers \ {"with_password"}) \/ (act = "with_user" /\ args.v # None)) /\ Netloc5(S) # <<>>)
+        => KeptOpt("password", S, O, "raw_password")
+  /\ act \in C02_PathKeepers => Meaning("path", TRUE, Path5(S), Path5(O))
+  /\ act \in C02_QueryKeepers => Meaning("query", TRUE, Query5(S), Query5(O))
+  /\ act \in C02_FragKeepers => Meaning("fragment", TRUE, Frag5(S), Frag5(O))
+C02_KeptApplies(act) == act \in C02_UserKeepers \cup C02_PathKeepers
 C02_ModifierApplies(act) == act \in {"with_user", "with_password", "with_fragment", "with_path", "with_name", "with_suffix",
                                      "truediv", "joinpath", "with_query", "extend_query"}
 
